@@ -9,6 +9,7 @@ CONSTANTS
   MaxLen = 100
   ListLens = {1}
   WithJP = FALSE
+  WithBroken = FALSE
   RepeatRecover = TRUE
   TraceFile = "client_trace.ndjson"
 SPECIFICATION TraceSpec
